@@ -87,9 +87,9 @@ def instances(tier, seed):
 
 
 BOUNDS = {"quick": dict(parameters="1..3 array parameters (+ return)", rank="0..2 per array", sizes="unbounded",
-                        strings=f"{len(STRINGS)}-string list", variants="typeguard pos/kw, beartype, permuted declaration, dataclass"),
+                        strings=f"{len(STRINGS)}-string list", variants="typeguard pos/kw, beartype, permuted declaration, dataclass, derived dataclass, *args, keyword-only with defaults, string annotations"),
           "thorough": dict(parameters="1..4 array parameters (+ return)", rank="0..3 (0..2 for >=3 params)", sizes="unbounded",
-                           strings=f"{len(STRINGS)}-string list", variants="typeguard pos/kw, beartype, 2 permuted declarations, dataclass")}
+                           strings=f"{len(STRINGS)}-string list", variants="typeguard pos/kw, beartype, 2 permuted declarations, dataclass, derived dataclass, *args, keyword-only with defaults, string annotations")}
 STUBS = c01.STUBS
 ASSUMPTIONS = ["symbolic axes only after a parameter binding their names (the statement's proviso); "
                "paths where such a name ends up unbound ('#a' matched by size 1) raise AnnotationError and are outside the claim",
@@ -129,6 +129,13 @@ def scenario(inst, V):
         # the last parameter declared as annotated *args (receiving exactly one array)
         variants.append(("typeguard", "varargs", ident, "pos"))
         variants.append(("beartype", "varargs", ident, "pos"))
+    if k >= 2:
+        # all parameters keyword-only, those binding names carrying a (never used) default
+        variants.append(("typeguard", "kwonly", ident, "kw"))
+        variants.append(("beartype", "kwonly", inst["perm"], "kw"))
+        if ret is None:
+            variants.append(("typeguard", "dataclass-derived", ident, "pos"))
+            variants.append(("beartype", "dataclass-derived", inst["perm2"], "kw"))
     variants.append(("typeguard", "function-str", ident, "pos"))
     variants.append(("beartype", "function-str", ident, "kw"))
     verdicts = []
@@ -137,6 +144,9 @@ def scenario(inst, V):
             # the same function with *string* annotations (resolved by jaxtyped at decoration time)
             fn, pn = fnlib.build(params, ret, V.ARR, tc, "function", order, stringify=True)
             style = "function"
+        elif style == "kwonly":
+            fn, pn = fnlib.build(params, ret, V.ARR, tc, style, order,
+                                 defaults={i: None for i in range(k) if params[i] not in EXPR})
         else:
             fn, pn = fnlib.build(params, ret, V.ARR, tc, style, order)
         n0 = fnlib.HOLD["calls"]
